@@ -204,6 +204,18 @@ class CopyAnalysis:
                         self.local_defs.setdefault(t.id, []).append(n.value)
             elif isinstance(n, ast.AnnAssign) and n.value is not None and isinstance(n.target, ast.Name):
                 self.local_defs.setdefault(n.target.id, []).append(n.value)
+        # a local container filled in a loop (`out = []` ... `out.append(X)`): what is put into it, and what a loop variable ranges over
+        self.local_feeds: Dict[str, List[ast.AST]] = {}
+        self.loop_iters: Dict[str, List[ast.AST]] = {}
+        for n in walk_no_nested(fn):
+            if isinstance(n, ast.Call) and isinstance(n.func, ast.Attribute) and n.func.attr in ('append', 'add', 'extend', 'insert', 'update') and isinstance(n.func.value, ast.Name) and n.args:
+                self.local_feeds.setdefault(n.func.value.id, []).append(n.args[-1])
+            if isinstance(n, ast.Assign) and len(n.targets) == 1 and isinstance(n.targets[0], ast.Subscript) and isinstance(n.targets[0].value, ast.Name):
+                self.local_feeds.setdefault(n.targets[0].value.id, []).append(n.value)
+            if isinstance(n, ast.For):
+                for t in ast.walk(n.target):
+                    if isinstance(t, ast.Name):
+                        self.loop_iters.setdefault(t.id, []).append(n.iter)
 
     # -- freshness of an expression w.r.t. fields of `self` ---------------------------------------------
     def copy_status(self, e: ast.AST, elem_mutable: bool, depth: int = 0, selfname: str = 'self') -> Tuple[str, str]:
@@ -239,7 +251,17 @@ class CopyAnalysis:
                 for st, why in res:
                     if st != 'fresh':
                         return st, why
+                # a container built empty and filled element by element: every element put in has to be fresh as well
+                if elem_mutable:
+                    for fed in self.local_feeds.get(e.id, []):
+                        st, why = self.copy_status(fed, False, depth + 1, selfname)
+                        if st not in ('fresh', 'immutable-ok'):
+                            return 'shallow', f'`{U(fed)[:40]}` is put into `{e.id}`: {why}'
                 return 'fresh', f'local {e.id} fresh'
+            if e.id in self.loop_iters:
+                # an element of what the loop walks: the source's own object when that is a field of the source
+                if any((dotted(it) or '').startswith(selfname + '.') or any(isinstance(x, ast.Attribute) and dotted(x.value) == selfname for x in ast.walk(it)) for it in self.loop_iters[e.id]):
+                    return 'alias', f'`{e.id}` is an element of the source object\'s own container'
             return 'unknown', f'name {e.id}'
         if isinstance(e, ast.Attribute):
             if dotted(e.value) == selfname:
@@ -312,6 +334,22 @@ class CopyAnalysis:
                     for b in ast.walk(v):
                         if isinstance(b, ast.Attribute) and dotted(b.value) == selfname:
                             out.add(b.attr)
+        # locals filled in a loop, and loop variables: what flows into them (two levels)
+        seen: Set[str] = set()
+        todo = [a.id for a in ast.walk(e) if isinstance(a, ast.Name)]
+        depth = 0
+        while todo and depth < 40:
+            depth += 1
+            nm = todo.pop()
+            if nm in seen:
+                continue
+            seen.add(nm)
+            for src in self.local_feeds.get(nm, []) + self.loop_iters.get(nm, []) + self.local_defs.get(nm, []):
+                for b in ast.walk(src):
+                    if isinstance(b, ast.Attribute) and dotted(b.value) == selfname:
+                        out.add(b.attr)
+                    if isinstance(b, ast.Name):
+                        todo.append(b.id)
         return out
 
 
